@@ -54,6 +54,22 @@ func c19queued(t []string) (string, bool) {
 		}
 		n := chans.RecvQueuedFull(ch, buf)
 		return itoa(n) + " " + fmtInts(buf) + " " + fmtInts(drain(ch)), true
+	case "recvqueuedfullcap":
+		// recvqueuedfullcap <cap> <fill> <closed> <buflen> <bufcap>: the caller's buffer has spare capacity behind its length; the limit is
+		// len(buf), and nothing behind it may be written. result: n, buf[:len], the spare part buf[len:cap], remaining
+		need(t, 6)
+		ch := mkChan(atoi(t[1]), atoi(t[2]), atoi(t[3]) != 0)
+		bl, bc := atoi(t[4]), atoi(t[5])
+		if bc < bl {
+			panic(badOp{})
+		}
+		full := make([]int, bc)
+		for i := range full {
+			full[i] = sentinel
+		}
+		buf := full[:bl]
+		n := chans.RecvQueuedFull(ch, buf)
+		return itoa(n) + " " + fmtInts(buf) + " " + fmtInts(full[bl:]) + " " + fmtInts(drain(ch)), true
 	case "recvqueuedconc":
 		// g goroutines call RecvQueued(ch, limit) at the same time on one channel pre-filled with 1..fill (no sender):
 		// result = the g lists (in goroutine order) and what is left
